@@ -5,7 +5,7 @@ use h3::qpack::{decode_stateless, encode_stateless, HeaderField};
 use serde_json::{json, Value};
 
 use crate::reference::qpack::{self as rq, Field, QErr, Spelling};
-use crate::runner::{catch, hex, unhex, Ctx, Failure, PropDef, Tier, Verdict};
+use crate::runner::{catch, hex, unhex, Ctx, Failure, PropDef, Verdict};
 use crate::tape::Tape;
 
 pub static PROP: PropDef = PropDef {
